@@ -212,7 +212,9 @@ func tags(res *vkit.Result) {
 		return
 	}
 	defer tgt.Close()
-	paths := []string{"/one", "/one/two", "/one/two/three", "/one/two/three/four", "/a/b/c/d/e?x=/q/r", "/"}
+	// the last two have an empty path (the request goes out as "GET /?…"): there is nothing to derive
+	// an auto-tag from, so an untagged entry is __EMPTY__ whatever the auto-tag settings
+	paths := []string{"/one", "/one/two", "/one/two/three", "/one/two/three/four", "/a/b/c/d/e?x=/q/r", "/", "?x=1", "http://example.com"}
 	type line struct{ path, tag string }
 	var lines []line
 	var b strings.Builder
@@ -270,19 +272,27 @@ func tags(res *vkit.Result) {
 					for _, s := range samples {
 						l := lines[int(s.ID)-1]
 						purePath := strings.SplitN(l.path, "?", 2)[0]
-						auto := modelAutoTag(depth, purePath)
+						if strings.HasPrefix(purePath, "http://") {
+							purePath = ""
+						}
+						auto := ""
+						if purePath != "" {
+							auto = modelAutoTag(depth, purePath)
+						}
 						var ok bool
 						switch {
 						case !enabled && l.tag == "":
 							ok = s.Tags == "__EMPTY__"
 						case !enabled:
 							ok = s.Tags == l.tag
+						case l.tag == "" && auto == "":
+							ok = s.Tags == "__EMPTY__" // no tag and no path to derive one from
 						case l.tag == "":
 							ok = s.Tags == auto
 						case noTagOnly:
 							ok = s.Tags == l.tag
 						default: // tag present and auto-tag forced: either is accepted
-							ok = s.Tags == l.tag || s.Tags == auto || s.Tags == l.tag+"|"+auto
+							ok = s.Tags == l.tag || (auto != "" && s.Tags == auto) || s.Tags == l.tag+"|"+auto
 						}
 						if !ok {
 							res.Violate(key+"/tag", fmt.Sprintf("ammo %q with tag %q reported with tag %q (auto-tag %v depth %d no-tag-only %v; auto tag would be %q)", l.path, l.tag, s.Tags, enabled, depth, noTagOnly, auto), c)
